@@ -233,7 +233,8 @@ func rndReq(rnd *rand.Rand) (*aReq, string, string) {
 		return q, "http://" + host, host
 	}
 	scheme := []string{"http://", "https://", "ws://", "wss://"}[rnd.Intn(4)]
-	path := []string{"/", "/ad.js", "/ads/banner.png?x=1&y=2", "/Ad.JS", "/a%20b/c_d-e.f", "", "/path/to;p=1", "/x?u=http://example.org/"}[rnd.Intn(8)]
+	path := []string{"/", "/ad.js", "/ads/banner.png?x=1&y=2", "/Ad.JS", "/a%20b/c_d-e.f", "", "/path/to;p=1", "/x?u=http://example.org/",
+		"/@user/post", "/p?email=bob@mail.example", "/a:b@c/d"}[rnd.Intn(11)]
 	url := scheme + host + path
 	q.URL = bytesToInts(url)
 	q.Type = append(driveTypes, "document")[rnd.Intn(len(driveTypes)+1)]
@@ -250,6 +251,9 @@ type ruleEvent struct {
 	Req  *aReq  `json:"req"`
 	Res  bool   `json:"res"`
 	Text string `json:"text"`
+	// HostOK: the request the real constructor built has the host names the event states (C17's subject; here a
+	// difference means the rule was asked about another host's request)
+	HostOK bool `json:"host_ok"`
 }
 
 // checkRendered cross-checks the renderer: what the real parser understood must
@@ -319,12 +323,15 @@ func cmdDriveRule(args []string) error {
 			if berr != nil {
 				return berr
 			}
+			hostOK := true
 			if !q.Hostreq {
 				// derived fields are environment inputs of this check
 				q2 := *q
 				q2.ThirdParty = real.ThirdParty
-				if real.Hostname != host || real.SourceHostname != q.Src.String() {
-					return fmt.Errorf("hostname extraction differs on a plain URL %q", url)
+				hostOK = real.Hostname == host && real.SourceHostname == q.Src.String()
+				if !hostOK {
+					// logged, and rejected by the trace specification: the rule was matched against another host's request
+					real.Hostname, real.SourceHostname = host, q.Src.String()
 				}
 				q = &q2
 			}
@@ -340,7 +347,7 @@ func cmdDriveRule(args []string) error {
 			if len(samples) < 5 && res {
 				samples = append(samples, text+"  <-  "+q.describe())
 			}
-			out.write(ruleEvent{Rule: a, Req: q, Res: res, Text: text})
+			out.write(ruleEvent{Rule: a, Req: q, Res: res, Text: text, HostOK: hostOK})
 		}
 	}
 	summary(map[string]any{"events": out.n, "matches": matches, "rejected": rejected, "panics": panics, "samples": samples})
